@@ -79,6 +79,13 @@ def refinedAaft (data s0 : List (List Rat)) (ss : List (List (List Rat))) :
     Option (List (List Rat)) :=
   ss.foldl (fun R s => match R with | none => none | some _ => aaft data s) (aaft data s0)
 
+/-- first stage of `AAFT_surrogates` (394-402) for one row: `gaussian.sort(axis=1)`,
+`ranks = original_data.argsort().argsort()`, `rescaled_data[i,:] = gaussian[i, ranks[i,:]]` -/
+def rescale (row g : List Rat) : Option (List Rat) := gather (sortR g) (ranks row)
+
+/-- the array the inner `Surrogates(rescaled_data)` is built on -/
+def aaftRescaled (data gauss : List (List Rat)) : Option (List (List Rat)) := rowsM rescale data gauss
+
 /-! ### 2. phase randomisation of the memoised FFT (polymorphic in the numbers) -/
 
 structure Trig (α : Type) where
@@ -113,6 +120,24 @@ def fourierCalls (T : Trig α) (mode : Mode) (cache : List (α × α)) :
   | φs :: rest =>
     let out := rotRow T cache φs
     out :: fourierCalls T mode (match mode with | .inplace => out | .copy => cache) rest
+
+/-- the further operations of the refinement loop: `np.abs` and `np.angle` on (re, im) pairs -/
+structure Polar (α : Type) extends Trig α where
+  sqrt : α → α
+  /-- `np.angle(re + i·im)` -/
+  angle : α → α → α
+
+/-- refinement loop 456-462, the entry handed to `irfft`:
+`original_fourier_amps * np.exp(1j * np.angle(r_fft))` with
+`original_fourier_amps = np.abs(original_data_fft())`; `z` = cached FFT entry, `r` = entry of
+`rfft(R)`. -/
+def specIn (P : Polar α) (z r : α × α) : α × α :=
+  let a := P.sqrt (normSq z)
+  let ψ := P.angle r.1 r.2
+  (a * P.cos ψ, a * P.sin ψ)
+
+def specInRow (P : Polar α) (zs rs : List (α × α)) : List (α × α) :=
+  List.zipWith (specIn P) zs rs
 
 end
 
